@@ -11,6 +11,9 @@ import GormModel.Gen.WriteGuards
 import GormModel.Gen.ValueOfFacts
 import GormModel.Model.FieldZero
 import GormModel.Lemmas.FieldZero
+import GormModel.Model.ChainRows
+import GormModel.Lemmas.ChainRows
+import GormModel.Gen.WriteOrder
 namespace Gorm
 open Gorm.WriteSet
 
@@ -921,5 +924,95 @@ theorem C10_gen_iszero_consumers :
   decide
 
 end Kinds
+
+end Gorm
+
+/-! ### exactly the targeted rows when the chain is a boolean formula (Where / Or / Not) and the value carries a key
+    (Model/ChainRows.lean; finding F36; suites chain-rows / chainsel of harness/c10_r6.go) -/
+
+namespace Gorm
+open Gorm.ChainRows
+
+/-- scoped UPDATE of a soft-delete model (the schema's update clause runs BEFORE the key is merged): a row is
+    selected iff it satisfies (chain conditions) AND key AND not-soft-deleted — for every chain, Or steps included -/
+theorem C10_chain_rows_soft_update_exact (ts : List Term) (key live : Bool) :
+    selected true true ts key live = targeted true ts key live := by
+  unfold selected targeted chainHolds
+  cases whereHolds ts <;> cases key <;> cases live <;> rfl
+
+/-- FINDING F36 (counterexample, kernel-checked): plain model, `Where(a).Or(b)` + `Model(&keyed)`: a row satisfying
+    `a` whose key differs is selected (`a OR b AND key`) although it is not targeted -/
+theorem C10_chain_rows_counterexample :
+    selected false false [(false, true), (true, false)] false true = true ∧
+    targeted false [(false, true), (true, false)] false true = false := by decide
+
+/-- the same on the scoped soft DELETE (key merged before the wrap: `(a OR b AND key) AND deleted_at IS NULL`) -/
+theorem C10_chain_rows_soft_delete_counterexample :
+    selected false true [(false, true), (true, false)] false true = true ∧
+    targeted true [(false, true), (true, false)] false true = false := by decide
+
+/-- outside the pattern of F36 (no Or step after the first one): on EVERY path the selected rows are exactly
+    (chain conditions) AND key AND not-soft-deleted -/
+theorem C10_chain_rows_partial (gf soft : Bool) (ts : List Term) (key live : Bool) (h : noOr ts = true) :
+    selected gf soft ts key live = targeted soft ts key live := by
+  unfold selected targeted chainHolds
+  cases ts with
+  | nil => cases gf <;> cases soft <;> cases key <;> cases live <;> decide
+  | cons t rest =>
+    obtain ⟨o, v⟩ := t
+    have h' : rest.all (fun t => !t.1) = true := by simpa [noOr] using h
+    simp only [List.cons_append, whereHolds, evalFlat_append_noOr rest v key h']
+    cases evalFlat rest v <;> cases gf <;> cases soft <;> cases key <;> cases live <;> rfl
+
+/-- no key given (`key = true` on every row): every path selects exactly the targeted rows, Or or not -/
+theorem C10_chain_rows_no_key (gf soft : Bool) (ts : List Term) (live : Bool) :
+    selected gf soft ts true live = targeted soft ts true live := by
+  unfold selected targeted chainHolds
+  cases ts with
+  | nil => cases gf <;> cases soft <;> cases live <;> decide
+  | cons t rest =>
+    obtain ⟨o, v⟩ := t
+    simp only [List.cons_append, whereHolds, evalFlat_append_true]
+    cases evalFlat rest v <;> cases gf <;> cases soft <;> cases live <;> rfl
+
+/-- whatever the path: a row that is selected satisfies the chain's conditions and is not soft-deleted (the defect F36
+    loosens the KEY only), and a targeted row is always selected (no targeted row is missed) -/
+theorem C10_chain_rows_bounds (gf soft : Bool) (ts : List Term) (key live : Bool) :
+    (selected gf soft ts key live = true → chainHolds ts = true ∧ (soft = true → live = true)) ∧
+    (targeted soft ts key live = true → selected gf soft ts key live = true) := by
+  unfold selected targeted chainHolds
+  cases ts with
+  | nil => cases gf <;> cases soft <;> cases key <;> cases live <;> decide
+  | cons t rest =>
+    obtain ⟨o, v⟩ := t
+    simp only [List.cons_append, whereHolds]
+    constructor
+    · intro hs
+      have hle : evalFlat (rest ++ [(false, key)]) v = true → evalFlat rest v = true := evalFlat_append_le rest v key
+      cases hE : evalFlat (rest ++ [(false, key)]) v <;> cases hR : evalFlat rest v <;>
+        cases gf <;> cases soft <;> cases live <;> cases key <;> simp_all
+    · intro ht
+      cases key with
+      | false => simp at ht
+      | true =>
+        rw [evalFlat_append_true]
+        revert ht
+        cases evalFlat rest v <;> cases gf <;> cases soft <;> cases live <;> simp
+
+/-- regenerated facts (extract/gen_c10_r6.go → Gen/WriteOrder.lean): the update callback runs the schema's
+    UpdateClauses loop BEFORE ConvertToAssignments merges the key; the delete callback runs the DeleteClauses loop
+    before its key block; the soft-delete delete clause merges the key(s) and only then wraps; the soft-delete update
+    clause is nothing but the guarded wrap; the wrap groups ALL entries present when it runs -/
+theorem C10_gen_write_order :
+    Gen.WriteOrder.updateOrder = ["clauses", "assign", "build"] ∧
+    Gen.WriteOrder.deleteOrder = ["clauses", "key", "key", "build"] ∧
+    Gen.WriteOrder.softDeleteOrder = ["key", "key", "wrap", "build"] ∧
+    Gen.WriteOrder.softUpdateBody = ["if stmt.SQL.Len() == 0 && !stmt.Statement.Unscoped", "SoftDeleteQueryClause(sd).ModifyStatement(stmt)"] ∧
+    Gen.WriteOrder.queryWrapCond = ["orCond, ok := expr.(clause.OrConditions); ok && len(orCond.Exprs) == 1"] ∧
+    Gen.WriteOrder.queryWrapAssign = ["where.Exprs = []clause.Expression{clause.And(where.Exprs...)}"] := by decide
+
+/-- … hence the `groupFirst` flag the model is used with: true for the soft-delete UPDATE, false for the soft DELETE -/
+theorem C10_gen_group_first :
+    groupsFirst Gen.WriteOrder.updateOrder = true ∧ groupsFirst Gen.WriteOrder.softDeleteOrder = false := by decide
 
 end Gorm
